@@ -7,6 +7,7 @@ import (
 	"github.com/LemoFoundationLtd/lemochain-core/common"
 	"github.com/LemoFoundationLtd/lemochain-core/common/log"
 	"github.com/LemoFoundationLtd/lemochain-core/common/rlp"
+	"github.com/LemoFoundationLtd/lemochain-core/common/verifhook"
 	"github.com/LemoFoundationLtd/lemochain-core/store/leveldb"
 	"os"
 	"path/filepath"
@@ -770,6 +771,7 @@ func (database *ChainDatabase) GetAssetID(id common.Hash) (common.Address, error
 }
 
 func (database *ChainDatabase) IterateUnConfirms(fn func(*types.Block)) {
+	verifhook.Yield("store.IterateUnConfirms:before-walk")
 	database.LastConfirm.Walk(func(block *CBlock) {
 		fn(block.Block)
 	}, nil)
